@@ -139,7 +139,7 @@ def check_scenario(prop, ops, preds, cut_at, sobs, res, meta, sid, reg_cache=Non
         if cut_at is not None and (i > cut_at or (i == cut_at and pr.cut_self)):
             # beyond the statements' territory: only the model-independent severity rule still applies
             # (fatal from calls, non-fatal from destroying operations)
-            want = 'F' if op[0] == 'call' else 'N'
+            want = 'F' if op[0] in ('call', 'callx') else 'N'
             for (tag, sev, f, line, msg) in oobs[i].reports:
                 if sev != want:
                     mm = oracle.Mismatch('report.severity', {'after_cut'}, '%s report during %s (after the history left the modelled territory): %r' % (sev, op[0], msg[:100]), 'after-cut')
@@ -153,7 +153,7 @@ def check_scenario(prop, ops, preds, cut_at, sobs, res, meta, sid, reg_cache=Non
         for (tag, sev, f, line, msg) in ob.reports:
             k = oracle.classify(msg)
             res.reports_seen[k] = res.reports_seen.get(k, 0) + 1
-        mms = oracle.compare(pr, ob, reg, op[0] == 'call')
+        mms = oracle.compare(pr, ob, reg, op[0] in ('call', 'callx'))
         for mm in mms:
             ow = oracle.owners(mm)
             if prop in ow or '*' in ow:
@@ -252,7 +252,7 @@ def tally(res, ops, preds, cut_at, h):
         res.ops_by_kind[op[0]] = res.ops_by_kind.get(op[0], 0) + 1
         if cut_at is None or i <= cut_at:
             trig |= pr.trig
-            if op[0] == 'call':
+            if op[0] in ('call', 'callx'):
                 k = 'accepted' if pr.accepted else (pr.reports[0]['kind'] if pr.reports else 'other')
                 res.calls[k] = res.calls.get(k, 0) + 1
     for t in trig:
@@ -348,6 +348,8 @@ def legal(meta, ops, upto=None, two_monitors=False):
                 for j in range(3):
                     if p.get('se%d' % j) == 2 and (p.get('nobj') not in m.objs or m.objs[p['nobj']].kind not in 'MW' or p['nobj'] == op[4] or sh['fn'] == 'v'):
                         return None
+                    if p.get('se%d' % j) == 3 and (p.get('nobj') not in m.objs or m.objs[p['nobj']].kind not in 'MW' or sh['fn'] == 'gs'):
+                        return None
                 live_slots.add(key)
                 owner[op[1]] = key
             elif k == 'mon':
@@ -388,12 +390,12 @@ def legal(meta, ops, upto=None, two_monitors=False):
                 if op[1] not in m.objs:
                     return None
                 for e in m.exps.values():
-                    if not e.is_mon and any(e.p.get('se%d' % j) == 2 for j in range(3)) and e.p.get('nobj') == op[1]:
+                    if not e.is_mon and any(e.p.get('se%d' % j) in (2, 3) for j in range(3)) and e.p.get('nobj') == op[1]:
                         return None
             elif k == 'rmseq' or k == 'qseq':
                 if op[1] not in m.seqs:
                     return None
-            elif k == 'call':
+            elif k in ('call', 'callx'):
                 if op[1] not in m.objs:
                     return None
                 ob = m.objs[op[1]]
